@@ -2137,6 +2137,12 @@ class Interp(object):
                 if a.kind == 's':
                     return self.mk_s(st, bits, a.lin.scale(1 << c), inst, op)
                 return self.mk_u(st, bits, a.lin.scale(1 << c), inst, op)
+            la, lb = self.as_u(st, a), self.as_u(st, b)
+            if la is not None and lb is not None and not la.t and 0 <= la.c < M:
+                # a constant shifted by a variable amount (a bit selected by a value): kept as a term of that amount
+                blo, bhi = st.range(lb)
+                if 0 <= blo and bhi < bits:
+                    return self.opaque_op(st, 'shl', bits, la, lb, (la.c << blo if la.c << blo < M else 0, min(la.c << bhi, M - 1)))
             return self.fresh_int(st, bits, 'shl')
         if op == 'lshr':
             la = self.as_u(st, a)
@@ -2148,6 +2154,12 @@ class Interp(object):
                 if lo >= 0 and (lo >> c) == (min(hi, M - 1) >> c):
                     return self.const_int(bits, lo >> c)
                 return self.opaque_op(st, 'lshr', bits, la, c, (max(lo, 0) >> c, min(hi, M - 1) >> c))
+            lb = self.as_u(st, b)
+            if la is not None and lb is not None:
+                blo, bhi = st.range(lb)
+                lo, hi = st.range(la)
+                if 0 <= blo and bhi < bits and lo >= 0:
+                    return self.opaque_op(st, 'lshr', bits, la, lb, (0, min(hi, M - 1) >> blo))
             return self.fresh_int(st, bits, 'lshr')
         if op == 'ashr':
             la = self.slin(st, a)
